@@ -57,6 +57,9 @@ fn main() {
     if args[1] == "--merge-evidence" {
         std::process::exit(props::c03::merge_evidence(&args[2], &args[3], &args[4..]));
     }
+    if args[1] == "--dbg-l3" {
+        dbg_l3(&args[2]);
+    }
     if args[1] == "--dbg-witness" {
         dbg_witness();
         return;
@@ -158,4 +161,14 @@ pub fn dbg_witness() {
             }
         }
     }
+}
+
+#[allow(dead_code)]
+pub fn dbg_l3(prop: &str) {
+    use crate::props::base::*;
+    let st = crate::stats::Stats::new(prop, "quick");
+    crate::run::silence_panics();
+    sweep_table(&st, prop, &l_spec("L3i"), crate::run::Ft::F64, &Want::for_prop(prop), PairSet::All);
+    let code = crate::stats::finish(&st, "debug L3i", &[], true, Some(&|c| replay(c, false)));
+    std::process::exit(code);
 }
